@@ -277,6 +277,9 @@ def quantize_real(x,
         factor = target_std / data_std
     
     q_voltages = xp.around(factor * (x - data_mean) + target_mean)
+    # Range limits as Python integers: with a numpy fixed-width num_bits (e.g. uint8), 
+    # -2**(num_bits - 1) wraps around
+    num_bits = int(num_bits)
     q_voltages = xp.clip(q_voltages, -2**(num_bits - 1), 2**(num_bits - 1) - 1)
     q_voltages = q_voltages.astype(int)
     
